@@ -1,4 +1,4 @@
-CONSTANT U <- UT  Probes <- PQ  AccDict <- Acc
-CONSTANTS NodeIds = {1, 2, 127}  Lens = {0, 1, 2, 3, 4, 5, 6, 7, 254, 255, 256, 257, 299, 300, 301, 512, 1000}  Bases = {1, 200, 77}
+CONSTANT U <- UX  Probes <- PQ  AccDict <- AccX  NodeIds <- AllNodeIds
+CONSTANTS Lens = {0, 1, 2, 3, 4, 5, 6, 7, 8, 254, 255, 256, 257, 299, 300, 301, 512, 889, 1000, 3999, 4000, 4001}  Bases = {1, 200, 77}  ValMode = "x"
 INIT Init
 NEXT Next
